@@ -183,6 +183,30 @@ def gen_alignment(rng, moltype=None):
     return moltype, canon, [(names[i], "".join(seqs[i])) for i in order]
 
 
+def gen_boundary_alignment(rng, kind):
+    """an alignment containing a pair that lies EXACTLY on a saturation boundary (U.gen_boundary_pair), hidden among
+    columns where one of the two has a gap / ambiguity code, in random column order, with 0-3 further sequences (one of
+    them possibly an exact duplicate of a boundary sequence) and random row order"""
+    moltype = rng.choice(["dna", "rna"])
+    canon = "ACGT" if moltype == "dna" else "ACGU"
+    cols = [list(c) for c in U.gen_boundary_pair(rng, canon, kind)]
+    for _ in range(rng.choice([0, 0, 1, 3, 7])):
+        x, y = rng.choice(canon + NONCANON), rng.choice(NONCANON)
+        cols.append([x, y] if rng.random() < 0.5 else [y, x])
+    rng.shuffle(cols)
+    L = len(cols)
+    seqs = ["".join(c[0] for c in cols), "".join(c[1] for c in cols)]
+    for _ in range(rng.choice([0, 0, 1, 2, 3])):
+        r = rng.random()
+        if r < 0.25:
+            seqs.append(rng.choice(seqs[:2]))
+        else:
+            seqs.append("".join(rng.choice(canon) if rng.random() < 0.9 else rng.choice(NONCANON) for _ in range(L)))
+    order = list(range(len(seqs)))
+    rng.shuffle(order)
+    return moltype, canon, [(f"s{i}", seqs[i]) for i in order]
+
+
 def _names(n):
     return [f"t{i:02d}" for i in range(n)]
 
@@ -301,7 +325,8 @@ def _mat_req(names, d):
 def correspondence(ctx):
     out = new_outcome(
         "estimators: random DNA/RNA alignments (2-8 seqs, 1-150 cols, gaps/ambiguity codes scattered, in blocks or whole "
-        "sequences, duplicates, saturated and low-complexity pairs) x 7 calculators, model fed the implementation's own index "
+        "sequences, duplicates, saturated and low-complexity pairs; plus pairs EXACTLY on a saturation boundary -- p = 3/4, a "
+        "TN93 log argument = 0, det F = 0 with exact float arithmetic -- and one column inside it) x 7 calculators, model fed the implementation's own index "
         "arrays, every cell compared (rel 1e-9 after math.log; nan<->invalid); non-trivial = (alignment, calc) with at least "
         "one finite non-zero distance. trees: model nj/upgma vs nj()/upgma() on additive / ultrametric matrices from random "
         "generating trees (3-25 tips) and on generic random symmetric matrices (3-12 tips); non-trivial = every tree with >= 4 tips"
@@ -336,6 +361,9 @@ def correspondence(ctx):
         ("rna", "ACGU", [("s0", "ACGUACGUAC"), ("s1", "ACGUACGUUC"), ("s2", "ACCUACGAAC"), ("s3", "ACGUNCGUAC")]),
         ("dna", "ACGT", [("s0", "AACCTTAACC"), ("s1", "ACCCTTAACT"), ("s2", "ACCCTTAAGT")]),
     ]
+    # exact saturation boundaries (a log argument exactly 0 with exact float arithmetic): the validity decision itself
+    for kind in U.BOUNDARY_KINDS:
+        alns += [gen_boundary_alignment(rng, kind) for _ in range(ctx.budget(2, 12))]
     reqs, meta = [], []
     for ai, (moltype, canon, seqs) in enumerate(alns):
         names = [n for n, _ in seqs]
@@ -375,8 +403,7 @@ def correspondence(ctx):
                         # an exactly-zero log argument / determinant somewhere in the alignment (the duplicate aliasing can
                         # carry that pair's value into other cells): float noise decides validity, not a model question
                         cn = "ACGT" if moltype == "dna" else "ACGU"
-                        mgs = [U.validity_margin(calc, seqs[x][1], seqs[y][1], cn) for x in range(n) for y in range(x + 1, n)]
-                        if any(mg is not None and mg < 1e-9 for mg in mgs):
+                        if any(U.delicate(calc, seqs[x][1], seqs[y][1], cn) for x in range(n) for y in range(x + 1, n)):
                             delicate_any = True
                             bump(out, "delicate_skipped")
                             continue
@@ -552,15 +579,13 @@ def _check_alignment(out, moltype, canon, seqs, calcs, rng=None, relations=True)
                             bump(out, "oracle", "identical-all-noncanonical")
                             continue
                         # numerically delicate validity decisions (det ~ 0) are not failures
-                        mg = U.validity_margin(calc, seqs[a][1], seqs[b][1], canon)
-                        if why == "log-undefined" and mg is not None and mg < 1e-9:
+                        if why == "log-undefined" and U.delicate(calc, seqs[a][1], seqs[b][1], canon):
                             bump(out, "oracle", "delicate-validity")
                             continue
                         fail(f"{calc}: a distance was returned for a pair where the estimator is undefined ({why})", dict(inp, cell=[a, b]), "invalid (nan)", g, f"est:{why}:dup-alias" if (names[a] in dupnames or names[b] in dupnames or why == "no-shared-columns") else f"est:{why}:{calc}:direct")
                     continue
                 if math.isnan(g):
-                    mg = U.validity_margin(calc, seqs[a][1], seqs[b][1], canon)
-                    if mg is not None and mg < 1e-9:
+                    if U.delicate(calc, seqs[a][1], seqs[b][1], canon):
                         bump(out, "oracle", "delicate-validity")
                         continue
                     fail(f"{calc}: no distance for a pair where the published formula is defined", dict(inp, cell=[a, b]), e, g, "est:nan:dup-alias" if (names[a] in dupnames or names[b] in dupnames) else f"est:nan:{calc}:direct")
@@ -579,10 +604,7 @@ def _check_alignment(out, moltype, canon, seqs, calcs, rng=None, relations=True)
             rng.shuffle(perm)
             pseqs = [(nm, "".join(s[k] for k in perm)) for nm, s in seqs]
             pm, _ = _impl_matrix(calc, _make_aln(pseqs, moltype), names)
-            delicate = any(
-                (mg := U.validity_margin(calc, seqs[x][1], seqs[y][1], canon)) is not None and mg < 1e-9
-                for x in range(n) for y in range(x + 1, n)
-            )
+            delicate = any(U.delicate(calc, seqs[x][1], seqs[y][1], canon) for x in range(n) for y in range(x + 1, n))
             if delicate:
                 bump(out, "oracle", "delicate-relations-skipped")
                 continue
@@ -631,10 +653,7 @@ def _check_apps(out, moltype, seqs, calcs):
                 _spec_fail(out, f"fast_slow_dist({calc}, {app_mt}) did not return a distance matrix", inp, "a distance matrix", repr(e)[:200], f"app:fast_slow_dist:{calc}:{route}:raises")
                 continue
             exp = _oracle_matrix(calc, canon, norm)
-            delicate = any(
-                (mg := U.validity_margin(calc, norm[x][1], norm[y][1], canon)) is not None and mg < 1e-9
-                for x in range(n) for y in range(x + 1, n)
-            )
+            delicate = any(U.delicate(calc, norm[x][1], norm[y][1], canon) for x in range(n) for y in range(x + 1, n))
             if delicate:
                 bump(out, "oracle", "delicate-app-skipped")
                 continue
@@ -762,7 +781,8 @@ def spec_check(ctx, budget):
     out = new_outcome(
         "real implementation vs independent oracles. estimators: every cell of the matrix of random alignments (incl. "
         "gaps/ambiguities, duplicates, saturated pairs) vs the published formula evaluated by character on that pair alone "
-        "(rel 1e-9), plus symmetry, zero diagonal, column permutation, pair independence, non-canonical column removal; "
+        "(rel 1e-9; incl. pairs exactly on a saturation boundary, where 'invalid' is demanded whenever float evaluation is "
+        "exact: U.float_exact_boundary), plus symmetry, zero diagonal, column permutation, pair independence, non-canonical column removal; "
         "non-trivial = (alignment, calc) with a finite non-zero expected distance. NJ: nj/gnj/DistanceMatrix.quick_tree/app "
         "quick_tree on the exact additive matrix of random generating trees (3-25 tips, lengths k/64, random tip order, "
         "some multifurcating) must return that tree (splits + lengths, abs 1e-9) and every join must be a cherry. UPGMA: "
@@ -784,6 +804,13 @@ def spec_check(ctx, budget):
         calcs = CALCS if k % 2 == 0 else rng.sample(CALCS, 3)
         _check_alignment(out, moltype, canon, seqs, calcs, rng)
         _check_apps(out, moltype, seqs, rng.sample(CALCS[:6], 2))
+    # exact saturation boundaries: p = 3/4, a TN93 log argument = 0, det F = 0 with exact float arithmetic (the estimator
+    # must report "invalid" there), and pairs one column inside the boundary (must report the formula value)
+    for k in range(12 * budget):
+        kind = U.BOUNDARY_KINDS[k % len(U.BOUNDARY_KINDS)]
+        moltype, canon, seqs = gen_boundary_alignment(rng, kind)
+        bump(out, "boundary_kind", kind)
+        _check_alignment(out, moltype, canon, seqs, CALCS, rng)
     for mt, sq in (("rna", [("a", "ACGUACGUACUUACGUAAUU"), ("b", "ACGUACGAACUCACGUAAUU"), ("c", "ACGAACGUACUUACGUCAUG")]),
                    ("dna", [("a", "ACGTACGTACTTACGTAATT"), ("b", "ACGTACGAACTCACGTAATT"), ("c", "ACGAACGTACTTACGTCATG")])):
         _check_apps(out, mt, sq, CALCS[:6])
